@@ -83,10 +83,6 @@ structure LayerFlags where
   passThrough : Bool
   deriving DecidableEq, Repr, Inhabited
 
-def nodeId : Tree.Node → Nat
-  | .layer p => p
-  | .group c _ _ _ => c
-
 def childFlags (fl : Nat → LayerFlags) : Tree.Node → ChildFlags
   | .layer p => ⟨(fl p).clipping, false, (fl p).passThrough⟩
   | .group c _ _ _ => ⟨(fl c).clipping, true, (fl c).passThrough⟩
@@ -101,7 +97,7 @@ structure Entry where
 /-- The entries of one children list. -/
 def clipLevel (m : CompatMode) (fl : Nat → LayerFlags) (f : List Tree.Node) : List Entry :=
   (f.zip (computeClip m (f.map (childFlags fl)))).map fun (n, ci) =>
-    ⟨nodeId n, ci.clipLayers.filterMap fun j => (f[j]?).map nodeId, ci.hasTarget⟩
+    ⟨n.id, ci.clipLayers.filterMap fun j => (f[j]?).map Tree.Node.id, ci.hasTarget⟩
 
 mutual
 /-- `rec_helper(sublayer)`: nothing for a non-group, the children list and the recursion for a group. -/
